@@ -98,7 +98,9 @@ def selfvalidate():
     n = 0
     p = os.path.join(repo_root(), "tests/data/test.vgz")
     if os.path.exists(p):
-        raw = gzip.open(p).read()
+        raw = open(p, "rb").read()
+        if raw[:2] == b"\x1f\x8b":
+            raw = gzip.decompress(raw)
         # walk the fixture with this transcription
         pos = 0
         found = {}
